@@ -8,6 +8,7 @@ CONSTANTS
     DefTTLCfg = 0
     W = 2
     MaxT = 4
+    Ticks = {1}
     Mode = "mc"
     Depth = 0
 VIEW ViewMC
